@@ -85,6 +85,16 @@ Theorem connector_router_exact : forall c g a b k p,
                In k (p_exps P) /\ In k (p_recv Q) /\ supported c k a b = true).
 Proof. exact connector_router_exact_l. Qed.
 
+(* Which connector factories count: for a pair among traces / metrics / logs the factory's own answer
+   decides, whether or not it implements the experimental xconnector.Factory interface; only a pair
+   involving profiles needs that interface. *)
+Theorem supported_factory_kind : forall c k x m E R,
+  lookup_conn k (conns c) = Some (x, m) ->
+  (E < 3 -> R < 3 ->
+   supported c k E R = existsb (fun p => Nat.eqb (fst p) E && Nat.eqb (snd p) R) m) /\
+  (x = false -> supported c k E R = true -> E < 3 /\ R < 3).
+Proof. exact supported_factory_kind_l. Qed.
+
 (* Instances.  The factory calls of a successful build are duplicate-free and are exactly: one
    receiver per (signal, id) listed by some pipeline of that signal, one exporter per (signal, id),
    one processor per (pipeline, id), one connector per (exporter signal, receiver signal, id) such
@@ -113,5 +123,6 @@ Print Assumptions build_error_starts_nothing.
 Print Assumptions route_exact.
 Print Assumptions deliver_in_iff.
 Print Assumptions connector_router_exact.
+Print Assumptions supported_factory_kind.
 Print Assumptions instances_exact.
 Print Assumptions cycle_message_names_cycle.
